@@ -608,11 +608,12 @@ def INT(number):
 def SUMIFS(sum_args, *criteria):
     if len(criteria) % 2 != 0:
         return error.ERROR
-    for criteria_range in criteria[::2]:
-        if isinstance(criteria_range, string_types):
-            return error.ERROR
     # a range arrives from the host as rows of cells: walk it cell by cell
     sum_args = utils.flatten(sum_args)
+    for criteria_range in criteria[::2]:
+        # a text where a range belongs - unless all ranges are single cells (one of them holding text)
+        if isinstance(criteria_range, string_types) and len(sum_args) != 1:
+            return error.ERROR
     range_and_preds = list(zip((utils.flatten(r) for r in criteria[::2]),
                                (utils.parse_criteria(criterion) for criterion in criteria[1::2])))
     # Validate criteria ranges
@@ -620,11 +621,9 @@ def SUMIFS(sum_args, *criteria):
     for criteria_range,pred in range_and_preds:
         if len(criteria_range) != sum_args_len:
             return error.VALUE
-    b = 0
-    for i, a in enumerate(sum_args):
-        if all(pred(criteria_range[i]) for criteria_range,pred in range_and_preds):
-            b += a
-    return b
+    # summed as SUM sums (the interpreter's compensated sum for floats), not item by item
+    return sum(a for i, a in enumerate(sum_args)
+               if all(pred(criteria_range[i]) for criteria_range, pred in range_and_preds))
 
 
 @dispatcher.register_for('SIGN')
